@@ -37,6 +37,7 @@ from fractions import Fraction
 import pymbolic.primitives as p
 
 from ..core import Failure, Prop, Stream
+from ..falsy_results import FalsyResults
 from ..gen import ExprGen, node_types, rand_env, size
 from ..oracles.pyeval import is_safe, outcome, pyeval
 from ..sexp import (A, App, Atom, Func, dumps, env_to_sx, exc_to_sx, expr_to_sx, loads,
@@ -2103,6 +2104,7 @@ PROP = Prop(
     extractors=[extract],
     streams=[TagStream(), TagTreeStream(), UseCountStream(), WrapStream(), WrapArrayStream(), TraceStream(),
              TagMapperStream(), TallyStream(), PrewrappedStream(),
+             FalsyResults("wrapper-falsy-results", "wrapper-child-recomputed"),
              TableTagStream(), TableCountStream(), TableWrapStream(), HistTagStream(), TableHistTagStream()],
     probes=[probe_findings],
     trusted_base=[
